@@ -58,6 +58,24 @@ class FakeRedis:
             return True
         return self._cmd('SET', (k, v), f)
 
+    def append(self, k, v):
+        k, v = _b(k), _b(v)
+
+        def f(d):
+            d[k] = d.get(k, b'') + v
+            return len(d[k])
+        return self._cmd('APPEND', (k, v), f)
+
+    def setrange(self, k, offset, v):
+        k, v = _b(k), _b(v)
+
+        def f(d):
+            old = d.get(k, b'')
+            old = old + b'\0' * max(0, offset - len(old))
+            d[k] = old[:offset] + v + old[offset + len(v):]
+            return len(d[k])
+        return self._cmd('SETRANGE', (k, offset, v), f)
+
     def getset(self, k, v):
         k, v = _b(k), _b(v)
 
